@@ -1,7 +1,7 @@
 (* C02 proofs: Griffe's reversed/zip_longest alignment equals CPython's right-alignment for every
-   length combination; overload buffer and setter/deleter attachment. *)
+   length combination (over the constants regenerated from the source); required-ness; the generated tables. *)
 From Coq Require Import List ZArith String Bool Arith Lia.
-From Verif Require Import Lib.Sexp Model.C02_params.
+From Verif Require Import Lib.Sexp Model.C02_kinds Gen.C02_tables Model.C02_params.
 Import ListNotations.
 Open Scope list_scope.
 Open Scope nat_scope.
@@ -100,7 +100,7 @@ Lemma positional_params_dflt (l : list ((arg * kind) * Z)) :
 Proof. induction l as [|[[a k] d] l IH]; simpl; [reflexivity|]. rewrite IH. reflexivity. Qed.
 
 Lemma kwonly_params_dflt (l : list (arg * option Z)) :
-  kwonly_params (map (fun pd => (Some (fst pd), Some (snd pd))) l) =
+  kwonly_params KO (map (fun pd => (Some (fst pd), Some (snd pd))) l) =
   Ok (map (fun xd => mkParam (aname (fst xd)) (aann (fst xd)) KO
                        (match snd xd with Some e => DExpr e | None => DNone end)) l).
 Proof.
@@ -118,7 +118,8 @@ Qed.
 Theorem parameters_eq_cpython a : wf a = true -> get_parameters a = Ok (cpython_signature a).
 Proof.
   intros Hwf. destruct (wf_inv a Hwf) as [Hd Hk].
-  unfold get_parameters, cpython_signature.
+  unfold get_parameters, cpython_signature. cbn [emission_order emit_all emit].
+  unfold posonly_kind, args_kind, vararg_kind, kwonly_kind, kwarg_kind, vararg_default, kwarg_default.
   set (tagged := map (fun x => (x, PO)) (posonly a) ++ map (fun x => (x, PK)) (args a)).
   assert (Hlen : List.length (defaults a) <= List.length tagged).
   { subst tagged. rewrite app_length, !map_length. exact Hd. }
@@ -127,18 +128,43 @@ Proof.
   rewrite (align_eq (kwonly a) (kw_defaults a)) by lia. unfold cpython_align.
   replace (List.length (kwonly a) - List.length (kw_defaults a)) with 0 by lia.
   cbn [firstn skipn map app].
-  rewrite kwonly_params_dflt. reflexivity.
+  rewrite kwonly_params_dflt. rewrite app_nil_r. reflexivity.
 Qed.
 
 Theorem too_many_defaults_rejected a :
   List.length (posonly a) + List.length (args a) < List.length (defaults a) ->
   get_parameters a = Err "TypeError".
 Proof.
-  intros H. unfold get_parameters.
-  set (tagged := map (fun x => (x, PO)) (posonly a) ++ map (fun x => (x, PK)) (args a)).
+  intros H. unfold get_parameters. cbn [emission_order emit_all emit].
+  set (tagged := map (fun x => (x, posonly_kind)) (posonly a) ++ map (fun x => (x, args_kind)) (args a)).
   assert (Hlen : List.length tagged < List.length (defaults a)).
   { subst tagged. rewrite app_length, !map_length. exact H. }
   destruct (align_too_many tagged (defaults a) Hlen) as [d [r E]]. rewrite E. reflexivity.
+Qed.
+
+(* the other ill-formed shape (ast.parse never produces it): fewer kw_defaults than keyword-only parameters is
+   tolerated (missing entries read as "no default"), more raises AttributeError unless the positional block raised first *)
+Theorem too_many_kw_defaults_rejected a :
+  List.length (defaults a) <= List.length (posonly a) + List.length (args a) ->
+  List.length (kwonly a) < List.length (kw_defaults a) ->
+  get_parameters a = Err "AttributeError".
+Proof.
+  intros Hd H. unfold get_parameters. cbn [emission_order emit_all emit].
+  set (tagged := map (fun x => (x, posonly_kind)) (posonly a) ++ map (fun x => (x, args_kind)) (args a)).
+  assert (Hlen : List.length (defaults a) <= List.length tagged).
+  { subst tagged. rewrite app_length, !map_length. exact Hd. }
+  rewrite (align_eq tagged (defaults a) Hlen). unfold cpython_align.
+  rewrite (positional_params_app _ _ _ _ (positional_params_plain _) (positional_params_dflt _)).
+  destruct (align_too_many (kwonly a) (kw_defaults a) H) as [d [r E]]. rewrite E. reflexivity.
+Qed.
+
+(* the generated tables: the enum has five distinct members with distinct values (equal values would make two
+   kinds aliases of one another), and a decorator path belongs to at most one of the role tables *)
+Theorem kind_values_distinct :
+  map fst kind_values = [PO; PK; VP; KO; VK] /\ NoDup (map snd kind_values).
+Proof.
+  split; [reflexivity|]. unfold kind_values; simpl.
+  repeat (constructor; [simpl; intuition discriminate|]). constructor.
 Qed.
 
 (* required-ness by position: exactly the parameters before the right-aligned defaults are required *)
@@ -171,139 +197,7 @@ Proof.
     apply nth_error_None in E. rewrite combine_length, skipn_length in E. lia.
 Qed.
 
-(* ---- overload buffer and property setters ---- *)
-Lemma lookup_assign_same {A} n (v : A) l : lookup n (assign n v l) = Some v.
-Proof.
-  induction l as [|[k w] l IH]; simpl.
-  - rewrite String.eqb_refl. reflexivity.
-  - destruct (String.eqb k n) eqn:E; simpl; rewrite E; auto.
-Qed.
-
-Lemma lookup_assign_other {A} n m (v : A) l : n <> m -> lookup m (assign n v l) = lookup m l.
-Proof.
-  intros Hne. induction l as [|[k w] l IH]; simpl.
-  - destruct (String.eqb n m) eqn:E; [apply String.eqb_eq in E; contradiction|reflexivity].
-  - destruct (String.eqb k n) eqn:E; simpl.
-    + apply String.eqb_eq in E. subst k.
-      destruct (String.eqb n m) eqn:E2; [apply String.eqb_eq in E2; contradiction|reflexivity].
-    + destruct (String.eqb k m); auto.
-Qed.
-
-Lemma lookup_remove_same {A} n (l : list (string * A)) : lookup n (remove_key n l) = None.
-Proof.
-  induction l as [|[k w] l IH]; simpl; [reflexivity|].
-  destruct (String.eqb k n) eqn:E; simpl; [exact IH|rewrite E; exact IH].
-Qed.
-
-Lemma lookup_remove_other {A} n m (l : list (string * A)) : n <> m -> lookup m (remove_key n l) = lookup m l.
-Proof.
-  intros Hne. induction l as [|[k w] l IH]; simpl; [reflexivity|].
-  destruct (String.eqb k n) eqn:E; simpl.
-  - apply String.eqb_eq in E. subst k.
-    destruct (String.eqb n m) eqn:E2; [apply String.eqb_eq in E2; contradiction|exact IH].
-  - destruct (String.eqb k m); auto.
-Qed.
-
-Definition buf (n : string) (s : scope) : list Z :=
-  match lookup n (buffer s) with Some l => l | None => [] end.
-
-Definition plain_overload (f : fdef) : Prop :=
-  existsb is_property (fdecos f) = false /\ existsb is_overload (fdecos f) = true.
-
-(* one step leaves the buffer of another name alone; an overload named n is appended *)
-Lemma handle_other_name s f n : fname f <> n -> buf n (handle_function s f) = buf n s.
-Proof.
-  intros Hne. unfold handle_function, buf.
-  destruct (existsb is_property (fdecos f)); [reflexivity|].
-  destruct (existsb is_overload (fdecos f)).
-  { simpl. rewrite lookup_assign_other by exact Hne. reflexivity. }
-  destruct (base_property s (fname f) (fdecos f)) as [[|]|].
-  - destruct (lookup (fname f) (members s)) as [[| |]|]; reflexivity.
-  - destruct (lookup (fname f) (members s)) as [[| |]|]; reflexivity.
-  - destruct (lookup (fname f) (buffer s)) as [[|x l]|] eqn:E; simpl; try reflexivity.
-    rewrite lookup_remove_other by exact Hne. reflexivity.
-Qed.
-
-Lemma handle_overload s f : plain_overload f -> buf (fname f) (handle_function s f) = buf (fname f) s ++ [fid f].
-Proof.
-  intros [Hp Ho]. unfold handle_function, buf. rewrite Hp, Ho. simpl.
-  rewrite lookup_assign_same. reflexivity.
-Qed.
-
-Lemma overloads_accumulate n fs : forall s,
-  (forall f, In f fs -> fname f = n -> plain_overload f) ->
-  buf n (visit_functions fs s) =
-  buf n s ++ map fid (filter (fun f => String.eqb (fname f) n) fs).
-Proof.
-  induction fs as [|f fs IH]; intros s H; simpl.
-  - rewrite app_nil_r. reflexivity.
-  - unfold visit_functions in *. simpl. rewrite IH by (intros g Hg; apply H; right; exact Hg).
-    destruct (String.eqb (fname f) n) eqn:E.
-    + apply String.eqb_eq in E. subst n. rewrite handle_overload by (apply H; [left|]; reflexivity).
-      simpl. rewrite <- app_assoc. reflexivity.
-    + apply String.eqb_neq in E. rewrite handle_other_name by exact E. reflexivity.
-Qed.
-
-Definition plain_impl (s : scope) (f : fdef) : Prop :=
-  existsb is_property (fdecos f) = false /\ existsb is_overload (fdecos f) = false /\
-  base_property s (fname f) (fdecos f) = None.
-
-Lemma handle_impl s f : plain_impl s f ->
-  lookup (fname f) (members (handle_function s f)) = Some (MFunc (fid f) (buf (fname f) s)) /\
-  buf (fname f) (handle_function s f) = [].
-Proof.
-  intros [Hp [Ho Hb]]. unfold handle_function, buf. rewrite Hp, Ho, Hb.
-  destruct (lookup (fname f) (buffer s)) as [[|x l]|] eqn:E; simpl.
-  - rewrite lookup_assign_same, E. auto.
-  - rewrite lookup_assign_same, lookup_remove_same. auto.
-  - rewrite lookup_assign_same, E. auto.
-Qed.
-
-(* Overloads written (anywhere, interleaved with other names) before the implementation attach to it in
-   source order, and the buffer is emptied. *)
-Theorem overloads_attach_in_order n fs impl s :
-  buf n s = [] ->
-  (forall f, In f fs -> fname f = n -> plain_overload f) ->
-  fname impl = n ->
-  plain_impl (visit_functions fs s) impl ->
-  let s' := visit_functions (fs ++ [impl]) s in
-  lookup n (members s') = Some (MFunc (fid impl) (map fid (filter (fun f => String.eqb (fname f) n) fs))) /\
-  buf n s' = [].
-Proof.
-  intros Hb Hfs Hn Himpl. cbn zeta. unfold visit_functions in *. rewrite fold_left_app. simpl.
-  pose proof (overloads_accumulate n fs s Hfs) as Hacc. unfold visit_functions in Hacc.
-  rewrite Hb in Hacc. simpl in Hacc.
-  destruct (handle_impl _ _ Himpl) as [H1 H2]. rewrite Hn in *. rewrite H1, H2, Hacc. auto.
-Qed.
-
-(* A setter / deleter for an existing property attaches to it: the member stays that very property. *)
-Theorem setter_deleter_keep_property s f id st dl b :
-  lookup (fname f) (members s) = Some (MProp id st dl) ->
-  existsb is_property (fdecos f) = false -> existsb is_overload (fdecos f) = false ->
-  base_property s (fname f) (fdecos f) = Some b ->
-  let s' := handle_function s f in
-  lookup (fname f) (members s') =
-    Some (if b then MProp id (Some (fid f)) dl else MProp id st (Some (fid f))) /\
-  (forall m, m <> fname f -> lookup m (members s') = lookup m (members s)) /\
-  buffer s' = buffer s.
-Proof.
-  intros Hm Hp Ho Hb. cbn zeta. unfold handle_function. rewrite Hp, Ho, Hb.
-  destruct b; rewrite Hm; simpl; rewrite lookup_assign_same; repeat split; auto;
-    intros m Hne; apply lookup_assign_other; auto.
-Qed.
-
-(* non-vacuity: a concrete class body meeting the hypotheses *)
-Example overloads_example :
-  let o1 := mkF 1 "g" [DOverload] in let o2 := mkF 2 "g" [DOther; DOverload] in
-  let h := mkF 3 "h" [] in let impl := mkF 4 "g" [DOther] in
-  lookup "g" (members (visit_functions [o1; h; o2; impl] (mkScope [] []))) = Some (MFunc 4 [1%Z; 2%Z]).
-Proof. reflexivity. Qed.
-
-Example setter_example :
-  let p := mkF 1 "x" [DProperty] in let st := mkF 2 "x" [DSetter "x"] in let dl := mkF 3 "x" [DDeleter "x"] in
-  lookup "x" (members (visit_functions [p; st; dl] (mkScope [] []))) = Some (MProp 1 (Some 2%Z) (Some 3%Z)).
-Proof. reflexivity. Qed.
-
+(* non-vacuity *)
 Example params_example :
   let a := mkArgs [mkArg "a" None; mkArg "b" (Some 7%Z)] [mkArg "c" None] (Some (mkArg "r" None))
                   [mkArg "k" None; mkArg "l" None] [None; Some 5%Z] (Some (mkArg "kw" None)) [1%Z; 2%Z] in
